@@ -39,8 +39,13 @@ RULE = ('a case = (recording length ns, window nwindow, imAiRangeMax/imMaxInt pa
         'every shank .ap.meta key for key, the reconstructed .bin and .meta, the float32 gain bit pattern. '
         'Besides: _ind2save + WindowGenerator of the real converter on row-index signals for hundreds of (ns, nwindow) pairs '
         '(which samples are written, in which order), _get_savedChans_subset/_get_chans on random channel lists, np.rint on float32 '
-        'bit patterns. non-trivial = the conversion succeeds (>= 2 windows for the sweep); distinct by the whole case description')
+        'bit patterns. One recording in three runs a stateful call sequence on the SAME objects (metadata helpers on converter.sr.meta, '
+        '_ind2save twice on the same arrays, process() with one window, other library calls, init_params(other window) + '
+        'process(overwrite=True), NP2Reconstructor.process() twice): every result is compared with the model of the original values; '
+        'helpers and _ind2save in the sweeps are called twice on the same argument objects. Whether inputs were modified is recorded '
+        'as a tag only. non-trivial = the conversion succeeds (>= 2 windows for the sweep); distinct by the whole case description')
 ASSUMPTIONS = [
+    'C03 does not state that inputs are left untouched or that results do not alias internal buffers: argument bit-identity is recorded as a tag (inputs:untouched / inputs:modified), only wrong RESULTS of a call sequence on the same objects are reported; replays are judged in a fresh interpreter',
     'recordings have 384 AP channels + 1 sync channel (the NP2.4 metadata the converter accepts); the reconstructor code itself assumes exactly one sync column (chns[:-1])',
     'shank numbers are single decimal digits (the code stores int(sh[-1]) of the key "shank<sh>"); NP2.4 has shanks 0..3',
     'ns >= 144: a recording shorter than the LF taper makes extract_lfp raise ValueError before anything is written (modelled as an error branch, compared, excluded from the oracle)',
@@ -186,24 +191,127 @@ def canon_meta(md):
     return out
 
 
-def run_real(case, data, smap, reconstruct=True):
-    """Run the real converter (and reconstructor) on a scratch recording.  Returns a dict of observables."""
+def _frozen(x):
+    """deep, comparable snapshot of arrays / dicts / lists (arrays by dtype, shape and bytes)."""
+    if isinstance(x, np.ndarray):
+        return ('nd', str(x.dtype), x.shape, x.tobytes())
+    if isinstance(x, dict):
+        return ('dict', tuple((k, _frozen(v)) for k, v in x.items()))
+    if isinstance(x, (list, tuple)):
+        return ('seq', tuple(_frozen(v) for v in x))
+    return ('val', repr(x))
+
+
+def _read_shanks(tmp):
+    import spikeglx
+    shanks = {}
+    for fold in sorted(Path(tmp).glob('probe00?*')):
+        f = fold / (NAME + '.bin')
+        mf = fold / (NAME + '.meta')
+        shanks[fold.name[len('probe00'):]] = {'bytes': np.fromfile(f, dtype=np.int16) if f.exists() else None,
+                                               'meta': spikeglx.read_meta_data(mf) if mf.exists() else None}
+    return shanks
+
+
+def _disk_state(paths):
+    return {str(p): (p.read_bytes() if p.exists() else None) for p in paths}
+
+
+def _interleave(bin_file):
+    """other calls of the library's own functions (on their own objects) between two identical calls; nothing the
+    harness receives is modified."""
     import neuropixel
     import spikeglx
+    from ibldsp.utils import WindowGenerator
+    sr2 = spikeglx.Reader(bin_file, sort=True)
+    sr2[0:50, :]
+    sr2.read(nsel=slice(0, 10), csel=slice(0, 5), sync=False)
+    spikeglx.geometry_from_meta(sr2.meta)
+    spikeglx._map_channels_from_meta(sr2.meta)
+    spikeglx._conversion_sample2v_from_meta(sr2.meta)
+    neuropixel.split_trace_header(neuropixel.trace_header(version=2, nshank=4), shank=1)
+    sr2.close()
+    spikeglx._get_savedChans_subset(np.array([2, 3, 9, 384]))
+    wg = WindowGenerator(5000, 1200, 576)
+    for _ in wg.firstlast:
+        pass
+
+
+SEQ_TEXT = ('call sequence "stateful": c = NP2Converter(bin, post_check, compress=False); spikeglx._map_channels_from_meta / '
+            '_conversion_sample2v_from_meta / geometry_from_meta(c.sr.meta); c.init_params(nwindow=nwindow0); '
+            'c._ind2save(chunk, sync, wg) twice on the same first-window arrays; c.process(); a second Reader, geometry and '
+            'WindowGenerator calls of the library on their own objects; c.init_params(nwindow=nwindow); c.process(overwrite=True); '
+            'r = NP2Reconstructor(...); r.process(); delete its output; r.process() again. Every RESULT (both _ind2save outputs, the shank '
+            'files after each process(), both reconstructions) must satisfy C03 with respect to the original sample values')
+
+
+def run_real(case, data, smap, reconstruct=True):
+    """Run the real converter (and reconstructor) on a scratch recording, following the case's call sequence
+    (`seq`: 'plain' = one process() + one reconstruction; 'stateful' = SEQ_TEXT).  Returns a dict of observables;
+    `purity` lists every argument / input that a call modified — informational only (a tag in the evidence): C03 does not
+    say inputs stay untouched, so only a wrong RESULT of a later call is ever reported."""
+    import neuropixel
+    import spikeglx
+    from ibldsp.utils import WindowGenerator
     logging.getLogger('ibllib').setLevel(logging.CRITICAL)
     logging.getLogger().setLevel(logging.CRITICAL)
     tmp = tempfile.mkdtemp(prefix='c03_')
-    res = {}
+    stateful = case.get('seq') == 'stateful'
+    res = {'purity': []}
+
+    def untouched(what, before, after, step):
+        if before != after:
+            res['purity'].append(f'{what} modified by {step}')
+
+    def reconstruct_once(rec):
+        if case.get('recon_window'):      # the steps of process(), with a smaller reconstruction window
+            rec.shank_info = rec._prepare_files()
+            if rec.shank_info is None:
+                return 0
+            rec.get_params()
+            rec.samples_window = int(case['recon_window'])
+            st = rec._reconstruct()
+            rec.write_metadata()
+            return st
+        return rec.process()
     try:
         bin_file = write_recording(tmp, case, data, smap)
-        res['orig_meta'] = spikeglx.read_meta_data(bin_file.with_suffix('.meta'))
+        meta_file = bin_file.with_suffix('.meta')
+        res['orig_meta'] = spikeglx.read_meta_data(meta_file)
+        disk0 = _disk_state([bin_file, meta_file])
         conv = None
         try:
             conv = neuropixel.NP2Converter(bin_file, post_check=bool(case.get('post_check', False)), compress=False)
-            res['gain_bits'] = int(np.asarray(conv.sr.channel_conversion_sample2v['ap'][:1], dtype=np.float32).view(np.uint32)[0])
-            res['sync_gain_bits'] = int(np.asarray(conv.sr.channel_conversion_sample2v['ap'][-1:], dtype=np.float32).view(np.uint32)[0])
+            s2v = conv.sr.channel_conversion_sample2v
+            res['gain_bits'] = int(np.asarray(s2v['ap'][:1], dtype=np.float32).view(np.uint32)[0])
+            res['sync_gain_bits'] = int(np.asarray(s2v['ap'][-1:], dtype=np.float32).view(np.uint32)[0])
+            meta0, s2v0 = _frozen(dict(conv.sr.meta)), _frozen(s2v)
+
+            def inputs_untouched(step):
+                untouched('original .bin/.meta on disk', disk0, _disk_state([bin_file, meta_file]), step)
+                untouched('converter.sr.meta', meta0, _frozen(dict(conv.sr.meta)), step)
+                untouched('converter.sr.channel_conversion_sample2v', s2v0, _frozen(s2v), step)
+            if stateful:
+                for fn in (spikeglx._map_channels_from_meta, spikeglx._conversion_sample2v_from_meta, spikeglx.geometry_from_meta):
+                    fn(conv.sr.meta)
+                inputs_untouched('the metadata helpers called on converter.sr.meta')
+                conv.init_params(nwindow=case['nwindow0'])
+                wg = WindowGenerator(case['ns'], case['nwindow0'], conv.samples_overlap)
+                first, last = next(iter(wg.firstlast))
+                chunk, sync = conv.sr[first:last, :conv.napch].T, conv.sr[first:last, conv.idxsyncch:].T
+                args0 = _frozen([chunk, sync])
+                res['ind2save'] = []
+                for rep in (1, 2):
+                    res['ind2save'].append(np.array(conv._ind2save(chunk, sync, wg, ratio=1, etype='ap')))
+                    untouched('_ind2save argument arrays (chunk, chunk_sync)', args0, _frozen([chunk, sync]), f'_ind2save call {rep}')
+                res['status_first'] = conv.process()
+                res['shanks_first'] = _read_shanks(tmp)
+                inputs_untouched(f'process() with nwindow={case["nwindow0"]}')
+                _interleave(bin_file)
+                inputs_untouched('unrelated library calls')
             conv.init_params(nwindow=case['nwindow'])
-            res['status'] = conv.process()
+            res['status'] = conv.process(overwrite=True) if stateful else conv.process()
+            inputs_untouched(f'process({"overwrite=True" if stateful else ""}) with nwindow={case["nwindow"]}')
         except Exception as e:   # noqa
             res['split_error'] = type(e).__name__
             res['split_error_msg'] = str(e)[:200]
@@ -217,34 +325,24 @@ def run_real(case, data, smap, reconstruct=True):
                     for key in ('ap_open_file', 'lf_open_file'):
                         if key in si:
                             si[key].close()
-        shanks = {}
-        for fold in sorted(Path(tmp).glob('probe00?*')):
-            suffix = fold.name[len('probe00'):]
-            f = fold / (NAME + '.bin')
-            ent = {'bytes': np.fromfile(f, dtype=np.int16) if f.exists() else None}
-            mf = fold / (NAME + '.meta')
-            ent['meta'] = spikeglx.read_meta_data(mf) if mf.exists() else None
-            shanks[suffix] = ent
-        res['shanks'] = shanks
+        res['shanks'] = _read_shanks(tmp)
         if reconstruct and 'split_error' not in res:
             shutil.rmtree(Path(tmp) / 'probe00')
+            shank_paths = sorted(p for p in Path(tmp).glob('probe00?*/*.ap.*') )
+            shank0 = _disk_state(shank_paths)
             try:
                 rec = neuropixel.NP2Reconstructor(tmp, pname='probe00', compress=False)
-                if case.get('recon_window'):      # the steps of process(), with a smaller reconstruction window
-                    rec.shank_info = rec._prepare_files()
-                    if rec.shank_info is None:
-                        res['recon_status'] = 0
-                    else:
-                        rec.get_params()
-                        rec.samples_window = int(case['recon_window'])
-                        res['recon_status'] = rec._reconstruct()
-                        rec.write_metadata()
-                else:
-                    res['recon_status'] = rec.process()
                 f = Path(tmp) / 'probe00' / (NAME + '.bin')
-                res['recon_bytes'] = np.fromfile(f, dtype=np.int16) if f.exists() else None
-                mf = f.with_suffix('.meta')
-                res['recon_meta'] = spikeglx.read_meta_data(mf) if mf.exists() else None
+                for rep in ((1, 2) if stateful else (1,)):
+                    st = reconstruct_once(rec)
+                    key = '' if rep == 1 else '2'
+                    res['recon_status' + key] = st
+                    res['recon_bytes' + key] = np.fromfile(f, dtype=np.int16) if f.exists() else None
+                    res['recon_meta' + key] = spikeglx.read_meta_data(f.with_suffix('.meta')) if f.with_suffix('.meta').exists() else None
+                    untouched('shank .ap.bin/.ap.meta files', shank0, _disk_state(shank_paths), f'reconstruction {rep}')
+                    if stateful and rep == 1:       # remove the output, keep the folder the constructor made
+                        for q in (Path(tmp) / 'probe00').glob('*'):
+                            q.unlink()
             except Exception as e:   # noqa
                 res['recon_error'] = type(e).__name__
                 res['recon_error_msg'] = str(e)[:200]
@@ -312,9 +410,10 @@ def _cases(ctx):
             cases.append({'ns': 171 + 12 * i, 'nwindow': 588, 'gain': list(g), 'prb_type': 24, 'map_key': 'snsShankMap',
                           'shanks': {'kind': 'stripes', 'ids': [0, 1, 2, 3], 'seed': i, 'period': 32},
                           'data': {'kind': 'ramp', 'offset': int(rng.integers(0, 65536)), 'step': 1}, 'lenkind': 'ramp'})
-    n = ctx.n(18, 180)
+    n = ctx.n(16, 180)
     for j in range(n):
-        ns, w, kind = _rand_lengths(rng, ctx.n(1800, 6000), ctx.n(30, 120))
+        stateful = j % 3 == 0      # one case in three runs the stateful call sequence (SEQ_TEXT), on a shorter recording
+        ns, w, kind = _rand_lengths(rng, *((ctx.n(1200, 4000), ctx.n(20, 80)) if stateful else (ctx.n(1800, 6000), ctx.n(30, 120))))
         g = GAINS[int(rng.integers(0, len(GAINS)))]
         geom = rng.random() < 0.35
         cases.append({'ns': ns, 'nwindow': w, 'gain': list(g), 'prb_type': int(rng.choice([24, 2013])),
@@ -322,6 +421,8 @@ def _cases(ctx):
                       'data': {'kind': str(rng.choice(['random', 'random', 'extremes'])), 'seed': int(rng.integers(0, 2 ** 31))},
                       'lenkind': kind, 'post_check': bool(rng.random() < 0.25),
                       'recon_window': int(rng.choice([0, 0, 1, 500, 1000, ns - 1, ns, ns + 1]))})
+        if stateful:
+            cases[-1].update(seq='stateful', nwindow0=int(rng.choice([w0 for w0 in (588, 600, 1200, 2400) if w0 != w])))
     # error branch: shorter than the LF taper
     for ns in ([3, 143] if ctx.quick else [3, 17, 100, 143]):
         cases.append({'ns': ns, 'nwindow': 588, 'gain': [0.5, 8192], 'prb_type': 24, 'map_key': 'snsShankMap',
@@ -345,6 +446,7 @@ def model_lines(case, data, smap, orig_meta):
     return [
         f'data {case["ns"]} {NC} ' + ','.join(map(str, data.ravel().tolist())),
         'meta ' + ' '.join(f'{k}={v}' for k, v in cm.items()),
+    ] + ([f'split {case["nwindow0"]} {_f64bits(rmax)} {mint} {NAP} 1 ' + ','.join(map(str, smap))] if case.get('seq') == 'stateful' else []) + [
         f'split {case["nwindow"]} {_f64bits(rmax)} {mint} {NAP} 1 ' + ','.join(map(str, smap)),
         f'recon {case.get("recon_window") or "default"}',
     ]
@@ -405,7 +507,7 @@ def _cmp_arrays(impl, model):
     return f'[{i}]={int(impl[i])}', f'[{i}]={int(model[i])}'
 
 
-def compare_case(ctx, case, real, model):
+def compare_case(ctx, case, real, model, model_first=None, data=None):
     desc = _clean(case)
     nsh = len(set(make_smap(case['shanks'])))
     nwin = max(-(-(case['ns'] - case['nwindow']) // (case['nwindow'] - 576)), 0) + 1 if case['nwindow'] > 576 else 0
@@ -431,16 +533,36 @@ def compare_case(ctx, case, real, model):
         rm = canon_meta(r['meta']) if r['meta'] is not None else {}
         a, b = _cmp_meta(rm, m['meta'])
         ctx.compare('shank-meta', dict(desc, op='shank-meta', shank=s), a, b, nontrivial=False)
-    # reconstruction
-    i_out = ('err ' + real['recon_error']) if 'recon_error' in real else f'ok status={real.get("recon_status")}'
-    m_out = model['recon_error'] if 'recon_error' in model else 'ok status=1'
-    ctx.compare('recon-outcome', dict(desc, op='recon-outcome'), i_out, m_out, nontrivial=False)
-    if 'recon' in model and real.get('recon_bytes') is not None:
-        a, b = _cmp_arrays(real['recon_bytes'], model['recon']['bytes'])
-        ctx.compare('recon-bytes', dict(desc, op='recon-bytes'), a, b, nontrivial=True, tags=('recon-file',))
-        rm = canon_meta(real['recon_meta']) if real.get('recon_meta') is not None else {}
-        a, b = _cmp_meta(rm, model['recon']['meta'])
-        ctx.compare('recon-meta', dict(desc, op='recon-meta'), a, b, nontrivial=False)
+    # state carried between calls: inputs untouched, first pass of the same converter object, repeated private call
+    ctx.case(dict(desc, op='call-sequence'), nontrivial=False,      # informational, never a disagreement
+             tags=('seq=' + case.get('seq', 'plain'), 'inputs:modified' if real['purity'] else 'inputs:untouched'))
+    if real['purity'] and len(ctx.notes) < 40:
+        ctx.note(f'informational: {real["purity"][0]} (ns={case["ns"]}, nwindow={case["nwindow"]}); only results are compared')
+    if case.get('seq') == 'stateful' and model_first is not None:
+        if 'split_error' in model_first:
+            ctx.compare('first-pass', dict(desc, op='first-pass'), f'ok status={real.get("status_first")}', model_first['split_error'], nontrivial=False)
+        else:
+            ctx.compare('first-pass-folders', dict(desc, op='first-pass-folders'), sorted(real.get('shanks_first', {})), sorted(model_first['shanks']), nontrivial=False)
+            for s in sorted(set(real.get('shanks_first', {})) & set(model_first['shanks'])):
+                a, b = _cmp_arrays(real['shanks_first'][s]['bytes'], model_first['shanks'][s]['bytes'])
+                ctx.compare('first-pass-bytes', dict(desc, op='first-pass-bytes', shank=s), a, b, nontrivial=True, tags=('first-pass-file',))
+                rm = canon_meta(real['shanks_first'][s]['meta']) if real['shanks_first'][s]['meta'] is not None else {}
+                a, b = _cmp_meta(rm, model_first['shanks'][s]['meta'])
+                ctx.compare('first-pass-meta', dict(desc, op='first-pass-meta', shank=s), a, b, nontrivial=False)
+        for rep, out in enumerate(real.get('ind2save', []), 1):
+            a, b = _cmp_arrays(out.ravel(), data[:out.shape[0]].ravel())
+            ctx.compare('ind2save-repeat', dict(desc, op='ind2save-repeat', call=rep), a, b, nontrivial=False)
+    # reconstruction (twice on the same object in the stateful sequence)
+    for key in (('', '2') if case.get('seq') == 'stateful' else ('',)):
+        i_out = ('err ' + real['recon_error']) if 'recon_error' in real else f'ok status={real.get("recon_status" + key)}'
+        m_out = model['recon_error'] if 'recon_error' in model else 'ok status=1'
+        ctx.compare('recon-outcome', dict(desc, op='recon-outcome' + key), i_out, m_out, nontrivial=False)
+        if 'recon' in model and real.get('recon_bytes' + key) is not None:
+            a, b = _cmp_arrays(real['recon_bytes' + key], model['recon']['bytes'])
+            ctx.compare('recon-bytes', dict(desc, op='recon-bytes' + key), a, b, nontrivial=True, tags=('recon-file',))
+            rm = canon_meta(real['recon_meta' + key]) if real.get('recon_meta' + key) is not None else {}
+            a, b = _cmp_meta(rm, model['recon']['meta'])
+            ctx.compare('recon-meta', dict(desc, op='recon-meta' + key), a, b, nontrivial=False)
 
 
 def _small_ops(ctx):
@@ -482,9 +604,15 @@ def _small_ops(ctx):
             ch = [int(rng.integers(0, NAP))]
         ch = ch + [384]
         try:
-            s = spikeglx._get_savedChans_subset(np.array(ch))
-            back = np.atleast_1d(rec._get_chans({'snsSaveChanSubset_orig': s})).tolist()
-            impl.append(f'ok {s} ' + ','.join(map(str, back)))
+            arr = np.array(ch)
+            s = spikeglx._get_savedChans_subset(arr)
+            md = {'snsSaveChanSubset_orig': s}
+            back = np.atleast_1d(rec._get_chans(md)).tolist()
+            # the same argument objects again: the results must still be those of the original values
+            s2 = spikeglx._get_savedChans_subset(arr)
+            back2 = np.atleast_1d(rec._get_chans(md)).tolist()
+            impl.append(f'ok {s} ' + ','.join(map(str, back)) if (s2, back2) == (s, back) else
+                        f'second call on the same objects: ok {s2} ' + ','.join(map(str, back2)))
         except Exception as e:   # noqa
             impl.append('err ' + type(e).__name__)
         lines.append('subset ' + ','.join(map(str, ch)))
@@ -534,9 +662,11 @@ def _kept_sweep(ctx):
             try:
                 for first, last in wg.firstlast:
                     idx = np.arange(first, last).astype(np.float32)[None, :]
-                    c2s = conv._ind2save(idx * s2v[0], idx.copy(), wg, ratio=1, etype='ap')
+                    volts, sy = idx * s2v[0], idx.copy()
+                    c2s = conv._ind2save(volts, sy, wg, ratio=1, etype='ap')
                     assert np.array_equal(c2s[:, 0], c2s[:, 1])
-                    out.append(c2s[:, 0].astype(int))
+                    again = conv._ind2save(volts, sy, wg, ratio=1, etype='ap')     # same argument objects
+                    out.append(c2s[:, 0].astype(int) if np.array_equal(again, c2s) else -again[:, 0].astype(int) - 1)
                 kept = np.concatenate(out) if out else np.zeros(0, int)
                 impl.append(f'ok n={kept.size} {_runs(kept)}')
             except Exception as e:   # noqa
@@ -578,10 +708,11 @@ def correspondence(ctx):
             data = make_data(case['data'], case['ns'])
             real = run_real(case, data, smap)
             lines = model_lines(case, data, smap, real['orig_meta'])
-            futs.append((case, real, pool.submit(ctx.lean, lines)))
-        for case, real, fut in futs:
+            futs.append((case, real, data, pool.submit(ctx.lean, lines)))
+        for case, real, data, fut in futs:
             ans = fut.result()
-            compare_case(ctx, case, real, parse_model(ans[2], ans[3]))
+            first = parse_model(ans[2], 'none') if case.get('seq') == 'stateful' else None
+            compare_case(ctx, case, real, parse_model(ans[-2], ans[-1]), first, data)
     ctx.note(f'timing: primitives {t1 - t0:.1f}s, kept sweep {t2 - t1:.1f}s, recordings {time.time() - t2:.1f}s')
     ctx.note(f'{len(cases)} recordings split and reconstructed by the real code and by the model; every gain pair saw all 65 536 int16 values')
 
@@ -589,50 +720,71 @@ def correspondence(ctx):
 # ---------------------------------------------------------------------------------------------
 # oracle: the property text, directly on the real code (no model involved)
 # ---------------------------------------------------------------------------------------------
+def _check_shanks(shanks, smap, data, label=''):
+    want_letters = [chr(97 + int(s)) for s in sorted(set(smap.tolist()))]
+    if sorted(shanks) != want_letters:
+        return f'{label}shank folders {sorted(shanks)} instead of {want_letters}'
+    for s in sorted(set(smap.tolist())):
+        cols = np.r_[np.where(smap == s)[0], NAP]
+        got = shanks[chr(97 + int(s))]['bytes']
+        want = data[:, cols]
+        if got is None:
+            return f'{label}shank {s}: no .ap.bin written'
+        if got.size != want.size:
+            return f'{label}shank {s}: file holds {got.size} samples ({got.size / len(cols):.2f} frames of {len(cols)}) instead of {want.shape[0]} frames'
+        got = got.reshape(want.shape)
+        if not np.array_equal(got, want):
+            t, j = (int(v[0]) for v in np.where(got != want))
+            return (f'{label}shank {s} file, frame {t}, column {j} (original channel {int(cols[j])}): wrote {int(got[t, j])}, '
+                    f'original sample is {int(want[t, j])}')
+    return None
+
+
 def oracle(case):
-    """None when C03 holds on this case; otherwise a description of the first violation."""
+    """None when C03 holds on this case (along its call sequence); otherwise a description of the first violation."""
     if case['ns'] < 144 or case['nwindow'] % 12 or case['nwindow'] <= 576:
         return None     # outside the property's domain
+    stateful = case.get('seq') == 'stateful'
+    if stateful and (case['nwindow0'] % 12 or case['nwindow0'] <= 576):
+        return None
     smap = np.array(make_smap(case['shanks']))
     data = make_data(case['data'], case['ns'])
     real = run_real(case, data, smap.tolist())
     if 'split_error' in real:
-        return f'splitting raised {real["split_error"]}: {real.get("split_error_msg", "")}'
-    want_letters = [chr(97 + int(s)) for s in sorted(set(smap.tolist()))]
-    if sorted(real['shanks']) != want_letters:
-        return f'shank folders {sorted(real["shanks"])} instead of {want_letters}'
-    for s in sorted(set(smap.tolist())):
-        cols = np.r_[np.where(smap == s)[0], NAP]
-        got = real['shanks'][chr(97 + int(s))]['bytes']
-        want = data[:, cols]
-        if got is None:
-            return f'shank {s}: no .ap.bin written'
-        if got.size != want.size:
-            return f'shank {s}: file holds {got.size} samples ({got.size / len(cols):.2f} frames of {len(cols)}) instead of {want.shape[0]} frames'
-        got = got.reshape(want.shape)
-        if not np.array_equal(got, want):
-            t, j = (int(v[0]) for v in np.where(got != want))
-            return (f'shank {s} file, frame {t}, column {j} (original channel {int(cols[j])}): wrote {int(got[t, j])}, '
-                    f'original sample is {int(want[t, j])}')
+        return f'splitting raised {real["split_error"]}: {real.get("split_error_msg", "")}' + (' (stateful call sequence)' if stateful else '')
+    if stateful:
+        for rep, out in enumerate(real.get('ind2save', []), 1):
+            want = data[:out.shape[0]]
+            if out.shape != want.shape or not np.array_equal(out, want):
+                return (f'_ind2save call {rep} of 2 on the same first-window arrays (nwindow={case["nwindow0"]}) did not return the original '
+                        f'samples of the kept rows' + (' although call 1 did' if rep == 2 else ''))
+        r = _check_shanks(real.get('shanks_first', {}), smap, data, f'first process() (nwindow={case["nwindow0"]}): ')
+        if r:
+            return r
+    r = _check_shanks(real['shanks'], smap, data,
+                      f'second process(overwrite=True) on the same converter after init_params(nwindow={case["nwindow"]}): ' if stateful else '')
+    if r:
+        return r
     if 'recon_error' in real:
         return f'reconstruction raised {real["recon_error"]}: {real.get("recon_error_msg", "")}'
-    if real.get('recon_status') != 1:
-        return f'reconstruction returned status {real.get("recon_status")}'
-    rb = real.get('recon_bytes')
-    if rb is None or rb.size != data.size:
-        return f'reconstructed file holds {None if rb is None else rb.size} samples instead of {data.size}'
-    if not np.array_equal(rb.reshape(data.shape), data):
-        t, c = (int(v[0]) for v in np.where(rb.reshape(data.shape) != data))
-        return f'reconstructed sample {t}, channel {c} is {int(rb.reshape(data.shape)[t, c])}, original {int(data[t, c])}'
-    rm = dict(real['recon_meta'] or {})
-    flag = rm.pop('original_meta', None)
-    om = dict(real['orig_meta'])
-    if rm != om:
-        diff = sorted(k for k in set(rm) | set(om) if rm.get(k, '<absent>') != om.get(k, '<absent>'))
-        k = diff[0]
-        return f'reconstructed metadata differ in {diff[:4]}: {k}={str(rm.get(k, "<absent>"))[:60]} vs original {str(om.get(k, "<absent>"))[:60]}'
-    if flag is None:
-        return 'reconstructed metadata lack the provenance flag original_meta'
+    for key, label in ((('', 'first reconstruction: '), ('2', 'second process() of the same NP2Reconstructor: ')) if stateful else (('', ''),)):
+        if real.get('recon_status' + key) != 1:
+            return f'{label}reconstruction returned status {real.get("recon_status" + key)}'
+        rb = real.get('recon_bytes' + key)
+        if rb is None or rb.size != data.size:
+            return f'{label}reconstructed file holds {None if rb is None else rb.size} samples instead of {data.size}'
+        if not np.array_equal(rb.reshape(data.shape), data):
+            t, c = (int(v[0]) for v in np.where(rb.reshape(data.shape) != data))
+            return f'{label}reconstructed sample {t}, channel {c} is {int(rb.reshape(data.shape)[t, c])}, original {int(data[t, c])}'
+        rm = dict(real['recon_meta' + key] or {})
+        flag = rm.pop('original_meta', None)
+        om = dict(real['orig_meta'])
+        if rm != om:
+            diff = sorted(k for k in set(rm) | set(om) if rm.get(k, '<absent>') != om.get(k, '<absent>'))
+            k = diff[0]
+            return f'{label}reconstructed metadata differ in {diff[:4]}: {k}={str(rm.get(k, "<absent>"))[:60]} vs original {str(om.get(k, "<absent>"))[:60]}'
+        if flag is None:
+            return f'{label}reconstructed metadata lack the provenance flag original_meta'
     return None
 
 
@@ -641,10 +793,26 @@ def _size(case):
     return (case['ns'], nsh, case['shanks']['kind'] != 'one', case['data']['kind'] != 'const', case['nwindow'])
 
 
-def _shrink(case, budget=48):
-    """greedy simplification of a failing case, re-running the oracle each time."""
+def oracle_fresh(case):
+    """the oracle in a NEW interpreter: what a stand-alone replay of `case` will see (no state left by earlier calls of
+    this process in the library's module-level caches)."""
+    import json
+    import subprocess
+    import sys
+    code = ('import sys, json; sys.path.insert(0, %r); import framework; framework.setup_paths(); import props.c03 as m; '
+            'print("RESULT " + json.dumps(m.oracle(json.loads(sys.argv[1]))))' % str(Path(__file__).resolve().parents[1]))
+    p = subprocess.run([sys.executable, '-c', code, json.dumps(case)], capture_output=True, text=True, timeout=600)
+    for line in p.stdout.splitlines():
+        if line.startswith('RESULT '):
+            return json.loads(line[7:])
+    return f'oracle process failed: {p.stderr[-300:]}'
+
+
+def _shrink(case, budget=26):
+    """greedy simplification of a failing case; every attempt is judged in a fresh interpreter, so that the result is a
+    self-contained call sequence."""
     best = dict(case)
-    why = oracle(best)
+    why = oracle_fresh(best)
     calls = 0
 
     def attempt(c):
@@ -653,7 +821,7 @@ def _shrink(case, budget=48):
             return False
         calls += 1
         try:
-            r = oracle(c)
+            r = oracle_fresh(c)
         except Exception as e:   # noqa
             r = f'oracle raised {type(e).__name__}: {e}'
         if r:
@@ -662,6 +830,7 @@ def _shrink(case, budget=48):
         return False
     m = re.search(r'original sample is (-?\d+)|original (-?\d+)$', why or '')
     val = int(next(g for g in m.groups() if g is not None)) if m else None
+    attempt({k: v for k, v in best.items() if k not in ('seq', 'nwindow0')})      # does it fail without the call sequence?
     attempt({k: v for k, v in best.items() if k not in ('recon_window', 'post_check')})
     attempt({k: v for k, v in best.items() if k != 'post_check'})
     attempt(dict(best, shanks={'kind': 'one', 'ids': [0], 'seed': 0}))
@@ -671,7 +840,7 @@ def _shrink(case, budget=48):
             break
     if val is not None:
         attempt(dict(best, data={'kind': 'const', 'value': val, 'sync': 0}))
-    for v in (1, 3, 32767, -32768):
+    for v in (1, 3):
         if best['data']['kind'] != 'const':
             attempt(dict(best, data={'kind': 'const', 'value': v, 'sync': v}))
     if best['data']['kind'] != 'const':
@@ -685,7 +854,7 @@ def _shrink(case, budget=48):
 
 
 def _clean(case):
-    return {k: case[k] for k in ('ns', 'nwindow', 'gain', 'prb_type', 'map_key', 'shanks', 'data', 'recon_window', 'post_check', 'save_subset') if case.get(k) not in (None, 0, False)}
+    return {k: case[k] for k in ('ns', 'nwindow', 'gain', 'prb_type', 'map_key', 'shanks', 'data', 'recon_window', 'post_check', 'save_subset', 'seq', 'nwindow0') if case.get(k) not in (None, 0, False)}
 
 
 def search(ctx, reasons):
@@ -713,25 +882,43 @@ def search(ctx, reasons):
             add(dict(base, ns=ns, nwindow=w, gain=[0.62, 2048], shanks=sh, data={'kind': 'random', 'seed': ns}))
     add(dict(base, ns=700, nwindow=588, gain=[0.6, 512], shanks={'kind': 'stripes', 'ids': [0, 1, 2, 3], 'seed': 0, 'period': 48},
              data={'kind': 'extremes', 'seed': 4}, map_key='snsGeomMap', prb_type=2013))
+    for ns, w, w0 in ((700, 588, 600), (1300, 600, 588)):      # state carried between calls
+        add(dict(base, ns=ns, nwindow=w, nwindow0=w0, seq='stateful', gain=[0.62, 2048], data={'kind': 'random', 'seed': 7},
+                 shanks={'kind': 'blocks', 'ids': [1, 3], 'seed': 1}))
+        add(dict(base, ns=ns, nwindow=w, nwindow0=w0, seq='stateful', gain=[0.5, 8192], data={'kind': 'random', 'seed': 8},
+                 shanks={'kind': 'random', 'ids': [0, 1, 2, 3], 'seed': 2}, map_key='snsGeomMap', prb_type=2013))
     for c in _cases(ctx)[:40]:
         add(c)
-    found = None
+    found, stale = None, []
     for c in cands:
         try:
             r = oracle(c)
         except Exception as e:   # noqa
             r = f'oracle raised {type(e).__name__}: {e}'
-        if r:
-            found = c
+        if not r:
+            continue
+        # must also fail as a stand-alone call sequence (fresh interpreter); otherwise try it as the stateful sequence
+        variants = [c] if c.get('seq') == 'stateful' else [c, dict(c, seq='stateful', nwindow0=600 if c['nwindow'] != 600 else 588)]
+        for v in variants:
+            if oracle_fresh(v):
+                found = v
+                break
+        if found or len(stale) >= 3:
             break
+        stale.append((c, r))
     if not found:
-        return None
+        if not stale:
+            return None
+        c, r = stale[0]      # fails only after the earlier conversions of this process: report it as such
+        return {'input': c, 'observed': r + ' (only after earlier conversions in the same interpreter; stand-alone it passes)',
+                'expected': 'C03 on every call, whatever was converted before', 'how': 'harness/props/c03.py search(): candidates run in order'}
     best, why = _shrink(found)
     return {'input': best, 'observed': why,
             'expected': 'C03: every shank .ap.bin = the original int16 samples of that shank\'s channels then sync, all frames once, in order; '
                         'NP2Reconstructor output = the original .bin byte for byte and its metadata = the original fields + original_meta',
             'how': 'harness/props/c03.py oracle(input): builds the 385-channel recording described by input (make_smap, make_data, '
-                   'NP24_meta fixture), runs NP2Converter(post_check=False, compress=False).init_params(nwindow).process() and NP2Reconstructor'}
+                   'NP24_meta fixture), runs NP2Converter(post_check=False, compress=False).init_params(nwindow).process() and NP2Reconstructor'
+                   + ('; ' + SEQ_TEXT if best.get('seq') == 'stateful' else '')}
 
 
 def replay(ctx, rep):
